@@ -4,13 +4,13 @@ Import ListNotations.
 
 Lemma bracket_up : forall e b, up e -> bracket true e b = (e, if b then BodyRaised else Done).
 Proof.
-  intros [h s d w sv] b [Hs Hw]; cbn in Hs, Hw; subst sv w.
-  unfold bracket, pause, resume; cbn. destruct b; cbn; destruct s; reflexivity.
+  intros [h s d w sv tr rp] b [Hs [Hw Hr]]; cbn in Hs, Hw, Hr; subst sv w rp.
+  unfold bracket, pause, resume; cbn. destruct b; cbn; destruct s; destruct tr; reflexivity.
 Qed.
 
 Lemma bracket_paused : forall g e b, saved e <> None -> bracket g e b = (e, RuntimeErr).
 Proof.
-  intros g [h s d w sv] b Hs; cbn in Hs. unfold bracket, pause; cbn.
+  intros g [h s d w sv tr rp] b Hs; cbn in Hs. unfold bracket, pause; cbn.
   destruct sv as [x|]; [reflexivity | congruence].
 Qed.
 
@@ -45,7 +45,7 @@ Theorem still_receiving : forall ops e h, up e -> handler e = Some h -> forallb 
   snd (run true e (ops ++ [Rx])) = snd (run true e ops) ++ [Handled h].
 Proof.
   induction ops as [|o ops IH]; intros e h Hup Hh Hall.
-  - cbn. rewrite Hh. reflexivity.
+  - cbn. rewrite Hh. destruct Hup as [_ [_ Hr]]. rewrite Hr, andb_false_r. reflexivity.
   - cbn in Hall. apply andb_prop in Hall as [Ho Hall]. cbn [run app].
     destruct (step true e o) as [e1 x] eqn:Hs.
     pose proof (snapshot_leaves_engine e o Hup Ho) as [H1 _]. rewrite Hs in H1; cbn in H1; subst e1.
@@ -56,25 +56,25 @@ Qed.
 (* pause/resume pairs restore the engine exactly *)
 Theorem pause_resume_id : forall e, up e -> fst (resume (fst (pause e))) = e.
 Proof.
-  intros [h s d w sv] [Hs Hw]; cbn in Hs, Hw; subst sv w. unfold pause, resume; cbn. destruct s; reflexivity.
+  intros [h s d w sv tr rp] [Hs [Hw Hr]]; cbn in Hs, Hw, Hr; subst sv w rp. unfold pause, resume; cbn. destruct s; destruct tr; reflexivity.
 Qed.
 
 (* the engine invariant of every reachable state, whatever the clients do: it is either up, or paused with
    everything switched off and the saved tuple that of an up engine *)
 Definition Inv (e : eng) : Prop :=
   up e \/ (exists h s d, saved e = Some (h, s, d) /\ handler e = None /\ sending_off e = true
-                         /\ disc_off e = true /\ wr_paused e = true).
+                         /\ disc_off e = true /\ wr_paused e = true /\ (has_tr e = false -> rd_paused e = false)).
 
 Lemma step_inv : forall e o, Inv e -> Inv (fst (step true e o)).
 Proof.
-  intros e o [Hup | (h0 & s0 & d0 & Hs & Hh & Hso & Hd & Hw)].
+  intros e o [Hup | (h0 & s0 & d0 & Hs & Hh & Hso & Hd & Hw & Hr)].
   - destruct o as [b|b| | |]; cbn [step].
     + rewrite bracket_up by exact Hup. left; exact Hup.
     + rewrite bracket_up by exact Hup. left; exact Hup.
-    + destruct e as [h s d w sv]; destruct Hup as [Hs Hw]; cbn in Hs, Hw; subst. unfold pause; cbn.
-      right. exists h, s, d. repeat split; reflexivity.
-    + destruct e as [h s d w sv]; destruct Hup as [Hs Hw]; cbn in Hs, Hw; subst. unfold resume; cbn.
-      left; split; reflexivity.
+    + destruct e as [h s d w sv tr rp]; destruct Hup as [Hs [Hw Hr]]; cbn in Hs, Hw, Hr; subst. unfold pause; cbn.
+      right. exists h, s, d. repeat split; try reflexivity. cbn. intros ->. reflexivity.
+    + destruct e as [h s d w sv tr rp]; destruct Hup as [Hs [Hw Hr]]; cbn in Hs, Hw, Hr; subst. unfold resume; cbn.
+      left; repeat split; reflexivity.
     + left; exact Hup.
   - assert (Hp : saved e <> None) by congruence.
     assert (Hsame : Inv e) by (right; exists h0, s0, d0; repeat split; assumption).
@@ -82,7 +82,8 @@ Proof.
     + rewrite bracket_paused by exact Hp. exact Hsame.
     + rewrite bracket_paused by exact Hp. exact Hsame.
     + unfold pause. rewrite Hs. exact Hsame.
-    + unfold resume. rewrite Hs. cbn. left. split; cbn; [reflexivity | rewrite Hw; destruct s0; reflexivity].
+    + unfold resume. rewrite Hs. cbn. left. split; [reflexivity|]. split; cbn; [rewrite Hw; destruct s0; reflexivity|].
+      destruct (has_tr e) eqn:Et; [reflexivity|apply Hr; reflexivity].
     + exact Hsame.
 Qed.
 
@@ -97,18 +98,33 @@ Qed.
 Theorem never_stuck : forall ops e, Inv e ->
   up (fst (run true e ops)) \/ up (fst (step true (fst (run true e ops)) Resume)).
 Proof.
-  intros ops e He. pose proof (run_inv ops e He) as [Hup | (h & s & d & Hs & _ & _ & _ & Hw)]; [left; exact Hup|].
-  right. destruct (fst (run true e ops)) as [h1 s1 d1 w1 sv1]; cbn in *. subst. cbn. split; cbn; [reflexivity | destruct s; reflexivity].
+  intros ops e He. pose proof (run_inv ops e He) as [Hup | (h & s & d & Hs & _ & _ & _ & Hw & Hr)]; [left; exact Hup|].
+  right. destruct (fst (run true e ops)) as [h1 s1 d1 w1 sv1 tr1 rp1]; cbn in *. subst. cbn. split; [reflexivity|]. split; cbn; [destruct s; reflexivity|].
+  destruct tr1; [reflexivity|apply Hr; reflexivity].
 Qed.
 
 (* the tree before the repair: a snapshot whose body raises leaves the engine paused, and the next packet is dropped *)
-Definition up_example : eng := mkEng (Some 7) false false false None.
+Definition up_example : eng := mkEng (Some 7) false false false None true false.
 Theorem unguarded_refuted :
   run false up_example [GetState true; Rx; GetState false] =
-  (mkEng None true true true (Some (Some 7, false, false)), [BodyRaised; Dropped; RuntimeErr]).
+  (mkEng None true true true (Some (Some 7, false, false)) true true, [BodyRaised; Dropped; RuntimeErr]).
 Proof. vm_compute. reflexivity. Qed.
 Theorem guarded_repaired :
   run true up_example [GetState true; Rx; GetState false] = (up_example, [BodyRaised; Handled 7; Done]).
 Proof. vm_compute. reflexivity. Qed.
 Example up_example_up : up up_example /\ Inv up_example.
-Proof. split; [|left]; split; reflexivity. Qed.
+Proof. split; [|left]; repeat split; reflexivity. Qed.
+
+(* the engine that forgets to resume READING when sending is disabled (one merged guard in _resume): a snapshot in the middle of a replayed log
+   leaves the transport paused, and the rest of the log is never taken from the source -- the model separates the two *)
+Definition resume_merged (e : eng) : eng * bool :=
+  match saved e with
+  | None => (e, false)
+  | Some (h, s, d) => (mkEng h s d (if s then wr_paused e else false) None (has_tr e) (if has_tr e && negb s then false else rd_paused e), true)
+  end.
+Definition replaying : eng := mkEng (Some 7) true true true None true false.
+Theorem merged_guard_refuted :
+  up replaying /\ rd_paused (fst (resume_merged (fst (pause replaying)))) = true /\
+  snd (step true (fst (resume_merged (fst (pause replaying)))) Rx) = Dropped /\
+  snd (run true replaying [GetState false; Rx]) = [Done; Handled 7].
+Proof. repeat split; vm_compute; reflexivity. Qed.
